@@ -65,7 +65,8 @@ def driver(case, api):
     global _TABLES
     if case.get("kind") == "tables":
         t = bytecode.decoder_tables()
-        return {"id": case["id"], "tables": {"exec": t["_execute"], "cb": t["_call_callback"], "emit": t["emitter"]}}
+        return {"id": case["id"], "tables": {"exec": t["_execute"], "cbs": [t["others"][k] for k in sorted(t["others"])],
+                                             "cbnames": sorted(t["others"]), "emit": t["emitter"]}}
     src = render(case["t"], case["n"])
     ctx = api.new_context(time_limit=case.get("time_limit", 60.0))
     out = api.eval_outcome(ctx, src, wall=300.0, cap=50_000_000)
